@@ -95,6 +95,18 @@ type RegCfg struct {
 	DefLimit uint64 `json:"def_limit"`
 	MaxLimit uint64 `json:"max_limit"`
 	StartID  uint64 `json:"start_id"`
+	// Prepop: registrations already present in the genesis document, with identifiers 1..Prepop (only when StartID is
+	// larger, so that there may be a gap between the highest registered identifier and the starting identifier);
+	// owner of the i-th is account i, no records, in-state limit = DefLimit.
+	Prepop int `json:"prepop,omitempty"`
+}
+
+// PrepopN: how many registrations the genesis carries (0 when the starting identifier leaves no room).
+func (r RegCfg) PrepopN() int {
+	if r.Prepop <= 0 || r.StartID <= uint64(r.Prepop) {
+		return 0
+	}
+	return r.Prepop
 }
 
 // GenesisCfg is the generated part of a genesis document.
@@ -525,9 +537,23 @@ func (c *Chain) genesisState() (map[string]json.RawMessage, error) {
 	gs[enttypes.ModuleName] = cdc.MustMarshalJSON(entGen)
 
 	// --- wrkchain / beacon
-	wg := wrkchaintypes.NewGenesisState(wrkchaintypes.NewParams(cfg.Wrk.FeeReg, cfg.Wrk.FeeRec, cfg.Wrk.FeePur, cfg.Wrk.Denom, cfg.Wrk.DefLimit, cfg.Wrk.MaxLimit), cfg.Wrk.StartID, nil)
+	var wregs wrkchaintypes.WrkChainExports
+	for i := 0; i < cfg.Wrk.PrepopN(); i++ {
+		wregs = append(wregs, wrkchaintypes.WrkChainExport{
+			Wrkchain:     wrkchaintypes.WrkChain{WrkchainId: uint64(i + 1), Moniker: fmt.Sprintf("pre-w%d", i), Name: "pre", Genesis: "", Type: "geth", RegTime: uint64(Epoch.Unix()), Owner: c.Accts[i%len(c.Accts)].Addr.String()},
+			InStateLimit: cfg.Wrk.DefLimit,
+		})
+	}
+	wg := wrkchaintypes.NewGenesisState(wrkchaintypes.NewParams(cfg.Wrk.FeeReg, cfg.Wrk.FeeRec, cfg.Wrk.FeePur, cfg.Wrk.Denom, cfg.Wrk.DefLimit, cfg.Wrk.MaxLimit), cfg.Wrk.StartID, wregs)
 	gs[wrkchaintypes.ModuleName] = cdc.MustMarshalJSON(wg)
-	bg := beacontypes.NewGenesisState(beacontypes.NewParams(cfg.Bcn.FeeReg, cfg.Bcn.FeeRec, cfg.Bcn.FeePur, cfg.Bcn.Denom, cfg.Bcn.DefLimit, cfg.Bcn.MaxLimit), cfg.Bcn.StartID, nil)
+	var bregs beacontypes.BeaconExports
+	for i := 0; i < cfg.Bcn.PrepopN(); i++ {
+		bregs = append(bregs, beacontypes.BeaconExport{
+			Beacon:       beacontypes.Beacon{BeaconId: uint64(i + 1), Moniker: fmt.Sprintf("pre-b%d", i), Name: "", RegTime: uint64(Epoch.Unix()), Owner: c.Accts[i%len(c.Accts)].Addr.String()},
+			InStateLimit: cfg.Bcn.DefLimit,
+		})
+	}
+	bg := beacontypes.NewGenesisState(beacontypes.NewParams(cfg.Bcn.FeeReg, cfg.Bcn.FeeRec, cfg.Bcn.FeePur, cfg.Bcn.Denom, cfg.Bcn.DefLimit, cfg.Bcn.MaxLimit), cfg.Bcn.StartID, bregs)
 	gs[beacontypes.ModuleName] = cdc.MustMarshalJSON(bg)
 
 	// --- stream
